@@ -3,7 +3,8 @@
 (* instance has token0/token1 swapped, ticks negated, ranges mirrored and per-token volumes swapped.                    *)
 EXTENDS UniLp, TLC
 
-CONSTANTS Level, MaxSteps, Focus    \* Focus 0: operations, 1: fee paths (few operations, many bars)
+CONSTANTS Level, MaxSteps, Focus,   \* Focus 0: operations, 1: fee paths (few operations, many bars)
+          LateOps                    \* TRUE: the bar's update is an event of its own, so operations can follow it (after_bar)
 
 VARIABLES st, stm, last, touched
 vars == <<st, stm, last, touched>>
@@ -54,6 +55,7 @@ FeeEvents ==
 OnLent(s, ev) == ev.op \in {"add", "remove", "collect"} /\ s.pos[ev.r].out
 Events(s) == {ev \in (IF Focus = 1 THEN FeeEvents ELSE OpEvents) : ~OnLent(s, ev)}
              \cup {[op |-> "endbar", next |-> n] : n \in DOMAIN RowSeq}
+             \cup (IF LateOps /\ ~s.upd THEN {[op |-> "update"]} ELSE {})       \* what follows in the bar runs in after_bar
 
 MirEv(ev) == CASE ev.op \in {"add", "remove", "lend", "unlend"} -> [ev EXCEPT !.r = Mir(@)]
                [] ev.op = "collect" -> [ev EXCEPT !.r = Mir(@), !.m0 = ev.m1, !.m1 = ev.m0]
